@@ -70,16 +70,22 @@ theorem C11_import_os :
 theorem C11_import_osx :
     findIdLoc ["import os, osx, os2 as os".toList] "osx".toList (1, 0) 0 true = (1, 11) := by decide
 
-/-! ### open finding `C11-pep695-type-params`: `[` is not an end delimiter, `class A[T]:` falls back to the keyword -/
+/-! ### fixed by 50717df: `[` was not an end delimiter, `class A[T]:` fell back to the keyword -/
+
+theorem C11_pep695_legacy :
+    findIdLocPre695 ["class A[T]: pass".toList] "A".toList (1, 0) 0 true = (1, 0) ∧
+    findIdLocPre695 ["def f[T](x): pass".toList] "f".toList (1, 0) 0 true = (1, 0) ∧
+    findIdLocPre695 ["class A [T]: pass".toList] "A".toList (1, 0) 0 true = (1, 6) := by decide
+
+/-- ... or landed on a later delimited occurrence of the same text -/
+theorem C11_pep695_later_legacy :
+    findIdLocPre695 ["class ab[T]: pass".toList, "with ab as x: pass".toList] "ab".toList (1, 0) 0 true = (2, 5) := by
+  decide
 
 theorem C11_pep695 :
-    declaredAt Generated.classSite ["class A[T]: pass".toList] "A".toList (1, 0) = (1, 0) ∧
-    declaredAt Generated.funcSite ["def f[T](x): pass".toList] "f".toList (1, 0) = (1, 0) ∧
-    declaredAt Generated.classSite ["class A [T]: pass".toList] "A".toList (1, 0) = (1, 6) := by decide
-
-/-- ... or lands on a later delimited occurrence of the same text -/
-theorem C11_pep695_later :
-    declaredAt Generated.classSite ["class ab[T]: pass".toList, "with ab as x: pass".toList] "ab".toList (1, 0) = (2, 5) := by
+    declaredAt Generated.classSite ["class A[T]: pass".toList] "A".toList (1, 0) = (1, 6) ∧
+    declaredAt Generated.funcSite ["def f[T](x): pass".toList] "f".toList (1, 0) = (1, 4) ∧
+    declaredAt Generated.classSite ["class ab[T]: pass".toList, "with ab as x: pass".toList] "ab".toList (1, 0) = (1, 6) := by
   decide
 
 /-! ### open finding `C11-splitlines-separator`: the model (like the code) works on `source.splitlines()`.
@@ -92,13 +98,13 @@ theorem C11_formfeed :
     (["x = 1".toList, ['\x0c'], "import os".toList, "def f(): pass".toList] : List Str)[4 - 1]? = some "def f(): pass".toList := by
   decide
 
-/-! ### the full-strength statement `Props.C11.C11_stmt` fails on `class A[T]: pass` -/
+/-! ### the full-strength statement `Props.C11.C11_stmt` fails beyond the 51-line window (open finding) -/
 
 theorem C11_stmt_false : ¬ SuppModel.Props.C11.C11_stmt := by
   intro h
-  have := h ["class A[T]: pass".toList] "A".toList (1, 0) 1 6 "class A[T]: pass".toList
-    (by decide) (by decide) (by decide) (by decide) (by decide) (by decide)
-    (Or.inr ⟨' ', by decide, by decide⟩) (Or.inr ⟨'[', by decide, by decide⟩)
-  exact this (by decide)
+  have := h ("from a import (".toList :: List.replicate 51 [] ++ ["  x)".toList]) "x".toList (1, 0) 53 2 "  x)".toList
+    (by decide) (by decide) (by decide +kernel) (by decide) (by decide) (by decide)
+    (Or.inr ⟨' ', by decide, by decide⟩) (Or.inr ⟨')', by decide, by decide⟩)
+  exact this (by decide +kernel)
 
 end SuppModel.Witness.C11
